@@ -81,6 +81,12 @@ def _transformations():
         ('add_individual_parameter', lambda m: pm.add_individual_parameter(m, 'MAT')),
         ('set_evaluation_step', lambda m: pm.set_evaluation_step(m)),
         ('update_initial_individual_estimates', _with_individual_estimates),
+        ('set_estimation_step(IMP,2 options)', lambda m: pm.set_estimation_step(
+            m, 'IMP', 0, tool_options={'NITER': 1000, 'ISAMPLE': 100})),
+        ('add_estimation_step(SAEM,3 options)', lambda m: pm.add_estimation_step(
+            m, 'SAEM', tool_options={'NBURN': 500, 'NITER': 200, 'ISAMPLE': 2})),
+        ('append_estimation_step_options', lambda m: pm.append_estimation_step_options(
+            m, tool_options={'SEED': 1234, 'PHITYPE': 1}, idx=0)),
     ]
     return T
 
@@ -243,7 +249,7 @@ def node_main(args):
                 rec['must_equal'] = True
             elif family == 'differs':
                 import pharmpy.modeling as pm
-                which = tape.draw(10, 'differs.kind')
+                which = tape.draw(12, 'differs.kind')
                 names = A.parameters.names
                 p = names[tape.draw(len(names), 'differs.par')]
                 par = A.parameters[p]
@@ -287,6 +293,17 @@ def node_main(args):
                     B = A.replace(statements=st.before_odes + extra + st.ode_system + st.after_odes
                                   if st.ode_system is not None else st + extra)
                     rec['change'] = 'an extra statement'
+                elif which in (10, 11):
+                    # bounds of a FIXED parameter are content too (unfixing restores them)
+                    A = pm.fix_parameters(A, p)
+                    par = A.parameters[p]
+                    rec['A'] = _facts(A, ModelHash)
+                    if which == 10:
+                        B = pm.set_upper_bounds(A, {p: (par.init + 1.0) * 10 if par.upper > 1e10
+                                                    else par.upper * 2 + 1})
+                    else:
+                        B = pm.set_lower_bounds(A, {p: par.init - abs(par.init) - 1.0})
+                    rec['change'] = f'bound of the fixed parameter {p}'
                 else:
                     rvs = A.random_variables
                     vp = rvs.etas.variance_parameters if len(rvs.etas) else []
